@@ -14,7 +14,7 @@ def main():
         reset_names()
         t = time.time(); r = run_contract(repo, c)
         print(f'== {c.name}: {len(r.obligations)} obligation instances, {r.n_paths} paths, gen {time.time()-t:.2f}s', 'UNSUPPORTED ' + r.unsupported if r.unsupported else '')
-        qs = D.prepare(r.obligations, shifts_for=D.shifts_by_name(c.shifts))
+        qs = D.prepare(r.obligations, shifts_for=D.shifts_by_name(c.shifts), units=c.units)
         cq = D.prepare(r.canaries)
         t = time.time(); D.run_queries(qs + cq, timeout_ms=tmo, jobs=int(os.environ.get("JOBS","16")))
         bad = [q for q in qs if q.verdict != 'unsat']
